@@ -71,34 +71,39 @@ def select_codes(r, tier, cx, tabs, res):
         add(ord("O"), ord("B"), v, "exception")
         add(ord("O"), ord("U"), v, "exception")
     add(ord("6"), ord("T"), ord("C"), "exception")
+    PR = range(32, 127)         # the 95 printable characters
     if tier == "thorough":
         for m in chars:
-            for c in range(33, 127):
-                for v in range(33, 127):
+            for c in PR:
+                for v in PR:
                     add(m, c, v, "exhaustive-printable")
         nnp, nfor = 6000, 600
     else:
-        # neighbours of every declared code: case variants and adjacent bytes
         for model, t in tabs.items():
             m = t["char"]
-            cats = sorted({ord(s[1]) for s, _ in t["evlist"]})
+            # every category the model declares or has table rows for x EVERY printable value
+            cats = sorted({ord(s[1]) for s, _ in t["evlist"]} | {c for (c, *_r) in t["table"]})
+            for c in cats:
+                for v in PR:
+                    add(m, c, v, "known-category-all-values")
+            # every printable category x a few values (+ the values used anywhere in the model)
+            vals = sorted({ord(s[2]) for s, _ in t["evlist"]})
+            for c in PR:
+                for v in r.sample(vals, min(3, len(vals))) + r.sample(list(PR), 3):
+                    add(m, c, v, "any-category")
+            # neighbours of every declared code: case variants, adjacent bytes, swapped
             for s, _ in t["evlist"]:
                 c, v = ord(s[1]), ord(s[2])
-                for (c2, v2) in ((c, v ^ 0x20), (c ^ 0x20, v), (c, v + 1), (c, v - 1), (c + 1, v), (c - 1, v),
-                                 (v, c)):
+                for (c2, v2) in ((c ^ 0x20, v), (c + 1, v), (c - 1, v), (v, c)):
                     add(m, c2, v2, "neighbour")
-            # every category the model knows x a spread of values, and the reverse
-            for c in cats:
-                for v in r.sample(range(33, 127), 12):
-                    add(m, c, v, "known-category")
-            for _ in range(1500):
-                add(m, r.randrange(33, 127), r.randrange(33, 127), "random-printable")
+            for _ in range(300):
+                add(m, r.choice(PR), r.choice(PR), "random-printable")
         nnp, nfor = 1500, 200
     for _ in range(nnp):
         m = r.choice(chars)
         k = r.random()
-        c = r.choice(list(range(0, 33)) + list(range(127, 256))) if k < 0.6 else r.randrange(33, 127)
-        v = r.choice(list(range(0, 33)) + list(range(127, 256))) if k > 0.3 else r.randrange(33, 127)
+        c = r.choice(list(range(0, 32)) + list(range(127, 256))) if k < 0.6 else r.randrange(32, 127)
+        v = r.choice(list(range(0, 32)) + list(range(127, 256))) if k > 0.3 else r.randrange(32, 127)
         add(m, c, v, "non-printable")
     others = [x for x in range(33, 127) if x not in chars]
     for _ in range(nfor):
